@@ -194,7 +194,13 @@ fn exec_e4(j: &J) -> Result<RunOut, String> {
             return Ok(out);
         }
     };
-    let js = json::parse(&text).map_err(|e| format!("output json: {}", e))?;
+    let js = match json::parse(&text) {
+        Ok(j) => j,
+        Err(e) => {
+            out.violate(Violation::new("written-structure-invalid", 0, format!("exit status 0 but the written structure is not JSON ({}); fault = {}; argv {:?}", e, sc.fault, r.argv)));
+            return Ok(out);
+        }
+    };
     let s = |p: &[&str]| js.path(p).and_then(|x| x.as_str()).map(|x| x.to_string());
     let lj = sc.potential.as_deref() == Some("LJ");
     if s(&["wallpaper", "name"]).as_deref() != Some(sc.group.as_str()) {
